@@ -46,7 +46,8 @@ def prepare(k):
     return base
 
 
-def run_shard(k, ids):
+def run_shard(k, ids, seeds=None):
+    """seeds: None = every check once with the default seed; a list = only the change's own check, once per seed"""
     base = prepare(k)
     v = base + '/verif'
     env = dict(os.environ, VERIF_ROOT=v, VERIF_REPO_SRC=base + '/repo/src', CARGO_NET_OFFLINE='true')
@@ -54,6 +55,21 @@ def run_shard(k, ids):
         d = VERIF + '/seeded/' + sid
         meta = json.load(open(d + '/meta.json'))
         own = re.match(r'C\d\d', meta['property']).group(0)
+        if seeds:
+            rc, out = sh(['patch', '-p1', '-s', '-d', base + '/repo', '-i', d + '/patch.diff'])
+            if rc != 0:
+                print(sid, 'patch failed', out[-300:], flush=True)
+                continue
+            res = {}
+            try:
+                for sd in seeds:
+                    p = subprocess.run(['timeout', '2400', v + '/check', own, '--tier', 'quick', '--seed', str(sd)], cwd=v, env=env, stdout=subprocess.PIPE, stderr=subprocess.STDOUT, text=True)
+                    res['seed%s' % sd] = bool([l for l in p.stdout.split('\n') if l.startswith('VIOLATION')]) or p.returncode != 0
+            finally:
+                sh(['patch', '-R', '-p1', '-s', '-d', base + '/repo', '-i', d + '/patch.diff'])
+            json.dump(res, open(base + '/results/' + sid + '.seeds.json', 'w'))
+            print('%s (%s): %s' % (sid, own, ' '.join('%s=%s' % (a, 'caught' if b else 'MISSED') for a, b in sorted(res.items()))), flush=True)
+            continue
         rc, out = sh(['patch', '-p1', '-s', '-d', base + '/repo', '-i', d + '/patch.diff'])
         if rc != 0:
             print(sid, 'patch failed', out[-300:], flush=True)
@@ -100,6 +116,8 @@ def merge(ks):
     for k in ks:
         rd = '/tmp/xm%s/results' % k
         for f in sorted(os.listdir(rd)):
+            if f.endswith('.seeds.json'):
+                continue
             sid = f[:-5]
             p = VERIF + '/seeded/' + sid + '/meta.json'
             meta = json.load(open(p))
@@ -112,5 +130,8 @@ def merge(ks):
 if __name__ == '__main__':
     if sys.argv[1] == 'shard':
         run_shard(sys.argv[2], sys.argv[3:])
+    elif sys.argv[1] == 'seeds':
+        # tools/xmatrix.py seeds <k> <seed,seed,...> <id> ...   the own check of every change under other seeds (fragility of the detection)
+        run_shard(sys.argv[2], sys.argv[4:], seeds=[int(x) for x in sys.argv[3].split(',')])
     elif sys.argv[1] == 'merge':
         merge(sys.argv[2:])
